@@ -247,6 +247,31 @@ func C08CopyScalars() {
 }
 
 
+// C20NodeArg: _node is the current node's JSON even when a named argument happens to be called
+// _node, wherever that argument stands in the list: the script never sees a caller-supplied value
+// in its place.
+func C20NodeArg() {
+	zz.MapOrder(0)
+	resetCaches()
+	ctxNode := idr.CreateNode(idr.ElementNode, "T")
+	idr.AddChild(ctxNode, idr.CreateNode(idr.TextNode, "one"))
+	var args []interface{}
+	if zz.NondetBool("argBefore") {
+		args = append(args, "a", "v")
+	}
+	args = append(args, "_node", 42)
+	if zz.NondetBool("argAfter") {
+		args = append(args, "b", "v")
+	}
+	v, err := JavaScriptWithContext(nil, ctxNode, zzProbeScript(false), args...)
+	zz.Assert(err == nil, "the call succeeds")
+	got, _ := v.(string)
+	zz.Observe("probe", got)
+	n := len(got)
+	zz.Assert(n >= 7 && got[n-7:] == ",string", "_node is the node's JSON text, not the argument of the same name")
+	zz.Cover("ran")
+}
+
 // C20Results: a script whose result is NaN, +Infinity, -Infinity, null or undefined is an error,
 // never a value; the engine-side goja model produces these result kinds for the marker scripts,
 // natively the real goja evaluates the equivalent expressions.
